@@ -289,6 +289,8 @@ class Spec(EvalableModel):
                 c = c.calculate_leak_power(models)
                 orig.leak_power = c.leak_power
                 orig.total_leak_power = c.leak_power * global_fanout
+            orig._calculated_costs = c._calculated_costs
+            orig._calculated_costs = c._calculated_costs
             orig.component_modeling_log = prev_log + c.component_modeling_log
             orig.component_model = c.component_model
 
